@@ -1,7 +1,7 @@
 """C16: expansion is total and deterministic."""
 import random, json, re, os, glob, copy
 import itemgen as G, refmodel as R, glayer, gx
-from common import Expander, REPO
+from common import Expander, REPO, BUILD
 
 LEVEL = "other"
 G_UNITS = {"cmp_flags": ["HelperAttributesForCompareOp::is_reverse"], "misc": ["build_deref_for_struct"]}
@@ -57,14 +57,15 @@ WEIRD_ATTRS = ["#[debug(bound(T, U, V, W, X1, X2))]", "#[ord(bound(A, B, C, D, E
 OTHER_ITEMS = ["union X { a: u8, b: u16 }", "fn f() {}", "trait T {}", "mod m {}", "type A = u8;", "impl X {}", "impl !Send for X {}", "impl core::ops::Add for X {}", "impl Add<u8, u8> for X { type Output = X; }",
                "impl<T> core::ops::Add<T> for X<T> { type Output = Self; fn add(self, r: T) -> Self { self } }", "impl core::ops::AddAssign for X { fn add_assign(&mut self, r: X) {} }", "impl core::ops::Neg for X { type Output = X; fn neg(self) -> X { self } }",
                "struct X();", "struct X {}", "enum X {}", "struct r#struct { r#type: u8, r#fn: u8 }", "enum r#enum { r#as(u8), r#dyn { r#in: u8 } }", "struct X<'a, T: ?Sized + 'a>(&'a T);", "struct X(u8, u8, u8, u8, u8, u8, u8, u8, u8, u8, u8, u8);",
-               "enum X { A = 1, B = isize::MAX }", "struct X<const N: usize>([u8; N]);", "pub(in self) struct X;", "struct X where;", "struct X<T,>(T,);", "macro_rules! m { () => {} }", "struct X(#[cfg(any())] u8, u16);"]
+               "enum X { A = 1, B = isize::MAX }", "struct X(dyn Tr + Send);", "struct X<'a>(dyn Tr + Send + 'a);", "struct X { a: u32, t: dyn Tr + Send }", "struct X(impl Tr + Send);", "struct X(dyn Tr);",
+               "impl Add<dyn A + B> for X { type Output = X; fn add(self, r: dyn A + B) -> X { self } }", "impl Sub<i32> for dyn A + Send { type Output = i32; fn sub(self, r: i32) -> i32 { r } }", "struct X<const N: usize>([u8; N]);", "pub(in self) struct X;", "struct X where;", "struct X<T,>(T,);", "macro_rules! m { () => {} }", "struct X(#[cfg(any())] u8, u16);"]
 
 
 def impl_items(rng, n):
     """syntactically valid operator impl items, including shapes rustc itself would reject later (`Self` inside the self type, missing
     Output, foreign items in the body): expansion must still terminate with items or a compile_error!"""
-    SELF_TY = ["X", "&X", "&'a X", "X<T>", "&X<T>", "W<Self>", "Box<Self>", "(X, Self)", "[Self; 2]", "Self", "&Self", "<X as Tr>::A", "fn(Self) -> X", "dyn Tr<Self>", "X<{ 1 + 2 }>", "!", "()"]
-    RHS = ["", "<Self>", "<&Self>", "<u8>", "<&X>", "<Vec<Self>>", "<&'a Self>", "<Option<&Self>>", "<<Self as Tr>::A>", "<Self, Self>", "<[Self; 3]>"]
+    SELF_TY = ["X", "dyn Tr + Send", "&X", "&'a X", "X<T>", "&X<T>", "W<Self>", "Box<Self>", "(X, Self)", "[Self; 2]", "Self", "&Self", "<X as Tr>::A", "fn(Self) -> X", "dyn Tr<Self>", "X<{ 1 + 2 }>", "!", "()"]
+    RHS = ["", "<dyn Tr + Send>", "<impl Tr + Tr2>", "<Self>", "<&Self>", "<u8>", "<&X>", "<Vec<Self>>", "<&'a Self>", "<Option<&Self>>", "<<Self as Tr>::A>", "<Self, Self>", "<[Self; 3]>"]
     OUT = ["type Output = Self;", "type Output = X;", "type Output = Option<Self>;", "", "type Output = <Self as Tr>::A;", "type Output = (Self, Self); type Other = u8;", "const C: u8 = 1;"]
     WH = ["", " where Self: Sized", " where Option<Self>: Sized, X: Tr<Self>", " where T: Copy", " where for<'b> &'b Self: Sized", " where"]
     GEN = ["", "<T>", "<'a>", "<'a, T: Tr<Self>>", "<const N: usize>", "<T: Copy, U>"]
@@ -116,6 +117,18 @@ def mutate(rng, it, derived):
     return it, derived
 
 
+def rustc_parses(text):
+    """second opinion when syn cannot re-parse an output: rustc's own parser (syn rejects some forms rustc accepts, e.g. `where dyn A + B: T`)"""
+    import subprocess, tempfile
+    d = os.path.join(BUILD, "c16_parse")
+    os.makedirs(d, exist_ok=True)
+    f = os.path.join(d, "out.rs")
+    open(f, "w").write(text)
+    p = subprocess.run(["rustc", "-Zparse-crate-root-only", "--edition", "2021", "--crate-type", "lib", f], capture_output=True, text=True,
+                       env=dict(os.environ, RUSTC_BOOTSTRAP="1"), cwd=d)
+    return p.returncode == 0, p.stderr[:600]
+
+
 def probe(ctx, ex, mode, args, item, stats):
     for entry in (("attr", "derive") if mode == "both" else (mode,)):
         if entry == "attr":
@@ -137,8 +150,12 @@ def probe(ctx, ex, mode, args, item, stats):
             if entry == "attr" and ex.lex(item).get("items") is None:
                 stats["not_an_item"] += 1
                 continue
-            ctx.violation(key, "output is neither well-formed items nor a compile_error! invocation", dict(rep, out=r1.get("out")))
-            continue
+            ok_rustc, perr = rustc_parses(r1.get("out") or "")
+            if ok_rustc:
+                stats["syn_stricter_than_rustc"] = stats.get("syn_stricter_than_rustc", 0) + 1
+            else:
+                ctx.violation(key, "output is neither well-formed items nor a compile_error! invocation (rustc: %s)" % perr.split("\n")[0], dict(rep, out=r1.get("out"), rustc=perr))
+                continue
         if any(i["kind"] == "compile_error" for i in r1["items"]):
             stats["errors"] += 1
             if any(i["kind"] == "compile_error" and not i.get("msg") for i in r1["items"]):
@@ -160,7 +177,7 @@ def run(ctx):
     for it in OTHER_ITEMS:
         for a in WEIRD_ARGS:
             probe(ctx, ex, "both", a, it, stats)
-        for a in ("Clone", "Add", "Add, AddAssign", "Default, Debug", "Ord, PartialOrd, Eq, PartialEq, Hash", "Deref", "Neg"):
+        for a in ("Clone", "Add", "Add, AddAssign", "Default, Debug", "Ord, PartialOrd, Eq, PartialEq, Hash", "Deref", "Neg", "Deref, DerefMut", "Sub, SubAssign", "Not, ShlAssign"):
             probe(ctx, ex, "both", a, it, stats)
     for (a, it) in impl_items(rng, 600 if ctx.quick else 20000):
         probe(ctx, ex, "attr", a, it, stats)
